@@ -108,7 +108,8 @@ def _load_offsets(cache_path, current_hash):
             ) = pickle.load(file)
             if current_hash is None or current_hash == serialized_hash:
                 return
-    except (FileNotFoundError, ValueError, TypeError):
+    except Exception:
+        # a missing, empty, truncated or otherwise unreadable cache is rebuilt
         pass
 
     _search_regex_parts = []
